@@ -46,7 +46,7 @@ from pyvc import native
 
 TOL = 1e-6
 APIS = ('predict', 'predict_mean', 'predict_var', 'predictive_gradients', 'predictive_gradient_mean')
-GRAD_TAIL_ZMIN = -30.0      # the analytic gradient is compared in the tails for z >= this (see contracts/c10.py NOT_PROVED: pdf/cdf is 0/0 below about -38)
+GRAD_TAIL_ZMIN = -1000      # the gradient is checked over the whole tail range (the unfixed tree returned nan / -inf for z < about -38: fix in /repo, see KNOWN_FINDINGS.jsonl)
 
 
 def _one_thread():
